@@ -389,6 +389,7 @@ class Model:
         self.SUv = z3.Function("SUv", Sim, Sim, D)
         self.SWd = z3.Function("SWd", Sim, Sim, B)   # q in p.successors_to_wait_for
         self.SWv = z3.Function("SWv", Sim, Sim, D)
+        self.PULL = z3.Function("PULL", Sim, Sim, D, B)   # (src, delay) in c.pulled_inputs  (args: c, src, delay)
         # trigger edges: the j-th trigger edge a -> b (j >= 0; small scope: j < 2), its delay and port
         self.TRd = z3.Function("TRd", Sim, Sim, I, B)
         self.TRv = z3.Function("TRv", Sim, Sim, I, D)
@@ -641,6 +642,8 @@ class Model:
                 return OutReq(self.out_req(obj))
             if name == "outputs":
                 return OutputsH(obj)
+            if name == "pulled_inputs":
+                return PulledH(obj)
             if name == "output_to_push":
                 return PushH(obj)
             if name == "timed_input_buffer":
@@ -1164,6 +1167,10 @@ class Model:
                     it.pure_depth -= 1
                 return FilteredOut(src.sim, k, cond)
             return NotImplemented
+        if kind == "gen":
+            r = self._qgen(it, e, env)
+            if r is not NotImplemented:
+                return r
         if kind not in ("list", "gen") or len(e.generators) != 1:
             return NotImplemented
         g = e.generators[0]
@@ -1182,6 +1189,52 @@ class Model:
         it.assign(g.target, item, sub)
         guard, val = self.pure_eval(it, dom, [c for c in g.ifs], e.elt, sub)
         return Bag([Gen(k, guard, val)])
+
+    def _qgen(self, it, e, env):
+        """(elt for x in <table> [for y in <table of x>] [if c]) where every table is world.sims.values(),
+        sim.pulled_inputs or sim.outputs (keys) and at least one is of the latter two kinds"""
+        from ..interp import Env
+        a = self.alg
+        if a.small:
+            return NotImplemented
+        sub = Env({}, env)
+        vars_, dom, conds, special = [], True, [], False
+        it.pure_depth += 1
+        try:
+            for g in e.generators:
+                if g.is_async:
+                    return NotImplemented
+                try:
+                    src = it.eval(g.iter, sub)
+                except Unsupported:
+                    return NotImplemented
+                if isinstance(src, SimsValues):
+                    k = z3.Const(f"s!g{next(_q)}", a.Sim)
+                    vars_.append(k)
+                    item = k
+                elif isinstance(src, PulledH):
+                    special = True
+                    k = z3.Const(f"src!g{next(_q)}", a.Sim)
+                    d = z3.Const(f"d!g{next(_q)}", a.D)
+                    vars_ += [k, d]
+                    dom = S.And(dom, self.PULL(src.sim, k, d))
+                    item = (k, self.D_(d))
+                elif isinstance(src, OutputsH):
+                    special = True
+                    k = z3.Int(f"k!g{next(_q)}")
+                    vars_.append(k)
+                    dom = S.And(dom, self.heap(it)["OUTP"][src.sim][k])
+                    item = k
+                else:
+                    return NotImplemented
+                it.assign(g.target, item, sub)
+                conds += list(g.ifs)
+        finally:
+            it.pure_depth -= 1
+        if not special:
+            return NotImplemented
+        guard, val = self.pure_eval(it, dom, conds, e.elt, sub)
+        return QGen(vars_, guard, val)
 
     def pure_eval(self, it, dom, conds, elt, env):
         """evaluate filter conditions and element expression for an ARBITRARY element (the
@@ -1350,6 +1403,25 @@ class Model:
         a = self.alg
         if len(xs) == 1 and isinstance(xs[0], Bag):
             return self._bag_min(it, which, xs[0], node)
+        if len(xs) == 1 and isinstance(xs[0], QGen):
+            q = xs[0]
+            if not is_int_like(q.val):
+                raise Unsupported("min/max of a generator of non-integers")
+            m = it.p.fresh(which, "int")
+            g = q.guard if is_z3(q.guard) else z3.BoolVal(bool(q.guard))
+            some = z3.Exists(q.vars, g)
+            bound_ = z3.ForAll(q.vars, z3.Implies(g, (q.val >= m) if which == "min" else (q.val <= m)))
+            attained = z3.Exists(q.vars, z3.And(g, q.val == m))
+            if "default" in kw:
+                dflt = kw["default"]
+                if not is_int_like(dflt):
+                    raise Unsupported("min/max default of another type")
+                it.p.assume(z3.If(some, z3.And(bound_, attained), m == dflt))
+            else:
+                if not it.decide(some):
+                    it.raise_("ValueError", node, implicit="min()/max() of an empty iterable")
+                it.p.assume(z3.And(bound_, attained))
+            return m
         if len(xs) == 1 and isinstance(xs[0], SymSeq) and isinstance(xs[0].length, int) and xs[0].length > 0 \
                 and all(is_int_like(xs[0].get(i)) for i in range(xs[0].length)):
             vals = [xs[0].get(i) for i in range(xs[0].length)]
@@ -1629,6 +1701,20 @@ class OutReq:
 class OutputsH:
     def __init__(self, sim):
         self.sim = sim
+
+
+class PulledH:
+    """sim.pulled_inputs: {(src_sim, delay): dataflows}; only the keys are modelled (static table PULL)"""
+
+    def __init__(self, sim):
+        self.sim = sim
+
+
+class QGen:
+    """a generator expression over modelled tables: { val(vars) | guard(vars) } (order abstracted away)"""
+
+    def __init__(self, vars_, guard, val):
+        self.vars, self.guard, self.val = list(vars_), guard, val
 
 
 class PushH:
